@@ -26,9 +26,18 @@ def _nonneg(ctx, fi, e: ast.AST, depth=0) -> Tuple[bool, str]:
     c = const_num(e)
     if c is not None:
         return c >= 0, "literal %r" % c
+    if isinstance(e, ast.IfExp) and depth < 4:
+        a, b = _nonneg(ctx, fi, e.body, depth + 1), _nonneg(ctx, fi, e.orelse, depth + 1)
+        if a[0] and b[0]:
+            return True, "both arms: %s / %s" % (a[1], b[1])
+        return False, a[1] if not a[0] else b[1]
     if isinstance(e, ast.Call):
         if isinstance(e.func, ast.Name) and e.func.id == "abs":
             return True, "abs(...)"
+        if isinstance(e.func, ast.Name) and e.func.id in ("max", "min") and e.args and depth < 4:
+            rs = [_nonneg(ctx, fi, a_, depth + 1) for a_ in e.args]
+            if (e.func.id == "max" and any(r[0] for r in rs)) or (e.func.id == "min" and all(r[0] for r in rs)):
+                return True, "%s of non-negative value(s)" % e.func.id
         tg = ctx.types.call_targets.get((fi.qual, id(e)), set())
         if tg == {fi.qual}:
             return True, "recursive distance(...) (induction on the dispatch)"
